@@ -6,6 +6,7 @@ FIELD_TYPES = {
     "index": "int|None", "element": "str", "is_aromatic": "bool", "isotope": "int|None", "chirality": "str|None",
     "h_count": "int|None", "charge": "int", "src": "int", "dst": "int", "order": "num", "stereo": "str|None",
     "ring_bond": "bool", "token": "str",
+    "bond_idx": "int|None", "start_idx": "int", "end_idx": "int", "token_type": "str",
 }
 
 
@@ -84,3 +85,17 @@ def smiles_to_atom(atom_symbol: str):
     ensures(implies(not typed(result, 'None') and typed(result.h_count, 'int'), result.h_count >= 0), tag="C10:h-count-nonnegative")
     ensures(implies(not typed(result, 'None') and atom_symbol.startswith("[") and atom_symbol.endswith("]"),
                     re_fullmatch(SMILES_BRACKETED_ATOM_PATTERN, atom_symbol)), tag="C09:bracket-atoms-match-the-grammar")
+
+
+@contract("selfies/utils/smiles_utils.py::tokenize_smiles", props=["C09"])
+def tokenize_smiles(smiles: str):
+    # a generator of SMILESToken objects: every token lies inside the input, tokens follow each other without gaps
+    # (a bond character belongs to the token after it), the scan always advances, only SMILESParserError escapes
+    requires(ascii_str(smiles))
+    raises(SMILESParserError)
+    yields_type('SMILESToken')
+    yields(typed(item, 'SMILESToken') and fresh(item)
+           and 0 <= item.start_idx and item.start_idx < item.end_idx and item.end_idx <= len(smiles)
+           and (typed(item.bond_idx, 'None') or item.bond_idx == item.start_idx - 1), tag="C09:token-inside-input")
+    invariant("while i < len(smiles)", typed(i, 'int') and 0 <= i and i <= len(smiles), tag="scan-position-in-range")
+    variant("while i < len(smiles)", len(smiles) - i)
